@@ -11,6 +11,7 @@ import (
 	"os"
 	"path/filepath"
 	"sort"
+	"strconv"
 	"strings"
 	"sync"
 	"testing"
@@ -450,7 +451,7 @@ func TestC20(t *testing.T) {
 				c20Body(t, c20Triples(false)[:4], false, 3))
 		}
 		rule := "threads = concurrent clients of one real store: W1 node-point writer (write, read-own-write, write), W2 edge-point writer, R reader (monotonic reads), V admin.storeVerify, X and Y clients whose requests must be refused (X: new edge without node type, self edge; Y: NaN values) next to W1, W2 / R and next to each other (each must get its own error text)%s; all triples; scheduling points = every message delivery, every SQL operation and every writeLock.Lock in store/sqlite.go, and every reply leaving the store; all schedules with at most %d preemptions; oracles: every request answered (no deadlock), acknowledged writes visible, reads never go back, final content = newest acknowledged writes, hashes consistent, storeMaint has nothing to repair"
-		extra := ", M admin.storeMaint (with V and a writer / reader)"
+		extra := ", M admin.storeMaint (with V and a writer / reader, and with both writers)"
 		if thorough() {
 			extra = ", M admin.storeMaint, more triples with M and X, and W1 W2 R V together"
 		}
@@ -712,9 +713,17 @@ func c20RacePart(r *mc.Report) {
 
 // c20Triples: thread sets (indices into c20Threads: W1 W2 R V M X Y); the thorough list extends the quick one.
 func c20Triples(thorough bool) [][]int {
-	ts := [][]int{{0, 1, 2}, {0, 1, 3}, {0, 2, 3}, {1, 2, 3}, {0, 3, 4}, {2, 3, 4}, {0, 1, 5}, {0, 2, 5}, {0, 5, 6}}
+	if only := os.Getenv("VERIF_C20_ONLY"); only != "" { // diagnosis: one thread set, e.g. "0,1,4"
+		var t []int
+		for _, f := range strings.Split(only, ",") {
+			n, _ := strconv.Atoi(f)
+			t = append(t, n)
+		}
+		return [][]int{t}
+	}
+	ts := [][]int{{0, 1, 2}, {0, 1, 3}, {0, 2, 3}, {1, 2, 3}, {0, 3, 4}, {2, 3, 4}, {0, 1, 5}, {0, 2, 5}, {0, 5, 6}, {0, 1, 4}}
 	if thorough {
-		ts = append(ts, []int{0, 1, 4}, []int{0, 2, 4}, []int{1, 3, 4}, []int{1, 2, 5}, []int{0, 1, 2, 3})
+		ts = append(ts, []int{0, 2, 4}, []int{1, 3, 4}, []int{1, 2, 5}, []int{0, 1, 2, 3})
 	}
 	return ts
 }
